@@ -664,6 +664,18 @@ class Gen:
                                     '\\begin{cases}' + self.hid_txt() + '&x>0\\end{cases}',
                                     'a\\begin{zzmenv}' + self.hid_txt() + '\\end{zzmenv}+1']) + b)
         self.cur.append(('@I', st + 1, self.pos(), 'g:inline'))
+        if self.rnd.random() < .25:
+            # a formula that ends with a punctuation mark, possibly behind a user macro with a long body: the mark
+            # is kept behind the placeholder and is generated by the formula
+            st = self.pos()
+            self.w(' ')
+            st2 = self.pos()
+            p = self.rnd.choice('.,;:')
+            body = self.rnd.choice(['b_2', '\\ykmth', 'z=\\ykmth', 'c']) if getattr(self, 'preamble', False) else 'b_2'
+            a, b = self.rnd.choice([('$', '$'), ('\\(', '\\)')])
+            self.w(a + body + p + b)
+            self.cur.append(('@I', st2 + 1, self.pos(), 'g:inline'))
+            self.cur.append((p, st2 + 1, self.pos(), 'g:inline-punctuation'))
 
     def k_display(self):
         st = self.pos()
@@ -1065,6 +1077,7 @@ PREAMBLE = ('\\newcommand{\\ymaca}[1]{ybodya #1 ybodyb}\n'
             '\\newcommand{\\ysite}[1]{\\url{ysitepre/#1}}\n'
             '\\newcommand{\\ytsec}[1]{\\section{#1 ybodyg \\LaTeX}}\n'
             '\\newcommand{\\ykm}{\\index{hkmQ}     \n      ybodyh}\n'
+            '\\newcommand{\\ykmth}{y_1, y_2, \\ldots, y_{hkmQ}}\n'
             '\\newcommand{\\ykv}{\\begin{verbatim}\nybodyv  ybodyw\\end{verbatim}}\n')
 CREFSED = ('s/\\\\cref{ylab}/ycrefig~(7)/g\n'
            's/\\\\Cref{ylab}/Ycrefig~(7)/g\n'
@@ -1087,6 +1100,7 @@ def random_document(rnd, size=None, lang='en', kinds=None, max_depth=5, glossary
         # the file starts with a skipped region (offset 0)
         g.w('%%% LT-SKIP-BEGIN\n' + g.hid_txt() + ' \\section{' + g.hid_txt() + '}\n%%% LT-SKIP-END\n')
     g.w(preamble_extra)
+    g.preamble = preamble
     if preamble:
         g.w(PREAMBLE)
     else:
